@@ -2,7 +2,9 @@ package checks
 
 import (
 	"context"
+	"crypto/sha256"
 	"fmt"
+	"github.com/bartossh/Computantis/src/accountant"
 	"math/rand"
 	"sort"
 	"time"
@@ -536,11 +538,102 @@ func c12PullHarvest(w *core.WorkerCtx, rng *rand.Rand, rounds int) {
 	}
 }
 
+// c12Joining: a node joins (its peer table entry appears) while a relay is busy admitting an item whose gossiper list
+// names the joining node with a forged entry. Topology O-M, O-R, M-R; H joins R. M gets X first (the honest copy to R
+// is held back), hands X to R listing H; while R's ledger admits X, H becomes R's peer. R must forward X to H.
+func c12Joining(w *core.WorkerCtx, rng *rand.Rand, rounds int) {
+	r := w.R
+	const O, R, H, M = 0, 1, 2, 3
+	t := mkTopo("joining", 4, [][2]int{{O, M}, {O, R}, {M, R}})
+	full := mkTopo("joining", 4, [][2]int{{O, M}, {O, R}, {M, R}, {R, H}})
+	for i := 0; i < rounds; i++ {
+		net, err := vnet.Build(t.k, t.adj, M)
+		if err != nil {
+			r.Inconc("cannot build network: " + err.Error())
+			return
+		}
+		it, err := c11Originate(net, O, "vrx", 7000+i)
+		if err != nil {
+			net.Close()
+			continue
+		}
+		variant := i % 3
+		desc := fmt.Sprintf("joining round %d: H joins R while R admits item %s that M relayed with a forged entry of H (variant %d)", i, ledger.Hex(it.hash), variant)
+		w.Mark("%s", desc)
+		net.WaitStable(6)
+		var got *vnet.Msg
+		for _, m := range net.Pending() {
+			if m.To == M {
+				net.Deliver(m)
+				got = m
+			}
+		}
+		var msg protobufcompiled.VrxMsgGossip
+		if got == nil || proto.Unmarshal(got.Bytes, &msg) != nil {
+			net.Close()
+			continue
+		}
+		advA, hA := net.Nodes[M].Actor, net.Nodes[H].Actor
+		d, sg := advA.W.Sign(append([]byte(advA.Addr), it.hash[:]...))
+		own := &protobufcompiled.Gossiper{Address: advA.Addr, Digest: d[:], Signature: sg}
+		var forged *protobufcompiled.Gossiper
+		switch variant {
+		case 0: // the adversary's signature under H's address
+			forged = &protobufcompiled.Gossiper{Address: hA.Addr, Digest: d[:], Signature: sg}
+		case 1: // random bytes
+			junk := make([]byte, 64)
+			rng.Read(junk)
+			dg := sha256.Sum256(append([]byte(hA.Addr), it.hash[:]...))
+			forged = &protobufcompiled.Gossiper{Address: hA.Addr, Digest: dg[:], Signature: junk}
+		default: // H's genuine signature, for another item
+			var other ledger.H
+			rng.Read(other[:])
+			d2, s2 := hA.W.Sign(append([]byte(hA.Addr), other[:]...))
+			forged = &protobufcompiled.Gossiper{Address: hA.Addr, Digest: d2[:], Signature: s2}
+		}
+		fm := proto.Clone(&msg).(*protobufcompiled.VrxMsgGossip)
+		fm.Gossipers = []*protobufcompiled.Gossiper{own, forged}
+		fb, _ := proto.Marshal(fm)
+		joined := false
+		net.OnAddLeaf = func(node int, v *accountant.Vertex) {
+			if node == R && v.Hash == it.hash && !joined {
+				joined = true
+				net.Connect(R, H)
+			}
+		}
+		net.Inject(M, R, "vrx", it.hash, fb, false)
+		for _, m := range net.Pending() {
+			if m.From == M && m.To == R {
+				net.Deliver(m)
+			}
+		}
+		x := &c11Exec{w: w, net: net, t: full, rng: rng, policy: "fifo"}
+		if !x.drive() {
+			r.Inconc("joining execution did not reach quiescence")
+			net.Close()
+			continue
+		}
+		c11Retries(net, M)
+		net.Settle()
+		net.OnAddLeaf = nil
+		if joined {
+			reach := honestReach(full, O, M)
+			c12Judge(w, net, full, it, desc, M, reach, "forged-entry-of-a-joining-node")
+		}
+		r.Eval(1)
+		r.Count("c12_joining_executions", 1)
+		r.Nontriv(fmt.Sprintf("joining/variant%d/joined=%v", variant, joined))
+		net.Close()
+	}
+}
+
 func c12Worker(w *core.WorkerCtx) {
 	rng := core.Rand(w.Seed, "C12", w.Batch)
 	c12Unit(w, rng, w.Pick(20, 400))
 	if w.Batch%2 == 0 {
 		c12PullHarvest(w, rng, w.Pick(4, 40))
+	} else {
+		c12Joining(w, rng, w.Pick(3, 30))
 	}
 	// network level: adversary at every position of small graphs (the origin elsewhere)
 	topos := []topo{
